@@ -35,6 +35,23 @@ def generate(seed, tier):
         evs = list(sc.C01_EVALS)
         rng.shuffle(evs)
         ops.append({"op": "eval", "names": evs, "x": x, "t": t, "identity": True})
+    if model.get("derived") and rng.random() < 0.5:
+        # another model in the same process, spelled identically, with another definition of the derived parameter;
+        # afterwards the first model is observed again
+        srng = S("sched")
+        alt = []
+        for dn, eq in model["derived"]:
+            a, b = srng.choice(params), srng.choice(params)
+            eq2 = srng.choice(["%s+%s" % (a, b), "2*%s" % a, "%s*%s/(2+%s)" % (a, srng.choice(names), names[0])])
+            if eq2 != eq:
+                alt.append([dn, eq2])
+        if alt:
+            x, t, _ = gen.gen_point(srng, names, [])
+            ops.append({"op": "sibling", "derived_alt": alt, "x": x, "t": t})
+            evs = list(sc.C01_EVALS)
+            srng.shuffle(evs)
+            ops.append({"op": "eval", "names": evs, "x": x, "t": t, "identity": True})
+            ops.append({"op": "sym", "names": ["ode_eqn", "rates"]})
     if rng.random() < 0.2 and params:
         ops.extend(sc.grow_ops(S("sched"), model, names, params, sc.C01_EVALS, count=rng.choice([1, 2]), with_identity=True))
         ops.append({"op": "sym", "names": ["ode_eqn", "vmat", "rates", "pure"]})
